@@ -85,4 +85,10 @@ theorem C17_samples_are_call_durations :
      Gen.clockStartsAfterDirectorCall && Gen.clockStartsAfterDirectorCallWithContext &&
      Gen.clockStartsAfterDirectorPing && Gen.clockStartsAfterDirectorNewStream) = true := by decide
 
+/-- "A stable set of live targets" is recognised as such: check() sorts the live addresses before it
+    compares them with the remembered sorted set (read from client.go on every run), so R's pass leaves
+    list and cursor alone when the set is unchanged — the rotation of C17_round_robin is not restarted
+    by the detector's ticks while some other target is down. -/
+theorem C17_stable_set_is_recognised : Gen.checkSortsBeforeComparing = true := by decide
+
 end RpcVerif.Props
